@@ -52,9 +52,106 @@ pub fn judge(input: &str) -> Verdict {
     }
 }
 
+/// A history of calls on one thread: every call must be answered whatever the earlier ones
+/// were (rejected by the lexer, rejected by the grammar, accepted with a warning, ...).
+/// Runs on a thread of its own so that the verdict is a function of the history alone.
+pub fn run_history(inputs: &[String]) -> Result<(), String> {
+    let inputs: Vec<String> = inputs.to_vec();
+    std::thread::Builder::new()
+        .stack_size(64 << 20)
+        .spawn(move || {
+            for (k, t) in inputs.iter().enumerate() {
+                if !corpus::within_bounds(t) {
+                    continue;
+                }
+                if let Err(e) = exercise(t) {
+                    return Err(format!("call {} of {} on one thread, input {:?}: {e}", k + 1, inputs.len(), truncate(t, 200)));
+                }
+            }
+            Ok(())
+        })
+        .map_err(|e| format!("thread: {e}"))
+        .and_then(|h| h.join().unwrap_or_else(|_| Err("the history thread itself panicked".into())))
+}
+
+/// Drop calls from a failing history while it still fails (greedy, one at a time).
+pub fn minimise_history(mut h: Vec<String>) -> Vec<String> {
+    let mut i = 0;
+    while i < h.len() && h.len() > 1 {
+        let mut shorter = h.clone();
+        shorter.remove(i);
+        if run_history(&shorter).is_err() {
+            h = shorter;
+        } else {
+            i += 1;
+        }
+    }
+    h
+}
+
+const RECENT: usize = 160;
+
+fn remember(recent: &mut std::collections::VecDeque<String>, t: &str) {
+    if recent.len() == RECENT {
+        recent.pop_front();
+    }
+    recent.push_back(t.to_string());
+}
+
+/// `t` (the newest entry of `recent`) failed with `e` on the worker's thread. Find out whether it
+/// fails on its own on a fresh thread; if not, which of the earlier calls it needs.
+fn explain_failure(recent: &std::collections::VecDeque<String>, t: &str, e: String, minimise: bool) -> (Value, String) {
+    if let Err(alone) = run_history(&[t.to_string()]) {
+        return (case_json(t), format!("input {:?}: {}", truncate(t, 300), alone.split_once(": ").map(|x| x.1.to_string()).unwrap_or(alone.clone())));
+    }
+    let full: Vec<String> = recent.iter().cloned().collect();
+    if run_history(&full).is_err() {
+        let mut h = full;
+        if minimise {
+            // shortest failing suffix first, then single removals
+            let mut lo = 1usize; // smallest suffix length known... found by doubling
+            while lo < h.len() && run_history(&h[h.len() - lo..]).is_ok() {
+                lo *= 2;
+            }
+            let lo = lo.min(h.len());
+            h = h[h.len() - lo..].to_vec();
+            h = minimise_history(h);
+        }
+        let msg = run_history(&h).err().unwrap_or(e);
+        return (json!({"kind": "history", "inputs": h}), format!("history of calls on one thread: {msg}"));
+    }
+    (json!({"kind": "history", "inputs": full}), format!("history of calls on one thread (the last {} calls do not reproduce it on a fresh thread; the state came from earlier ones): {e}", RECENT))
+}
+
+/// The poison inputs in an order that depends on (seed, index), then `last`.
+fn history_for(seed: u64, i: usize, pool: &[String], last: &str) -> Vec<String> {
+    let mut h: Vec<String> = POISON_INPUTS.iter().map(|s| s.to_string()).collect();
+    let mut x = stable_hash(&(seed, i as u64));
+    // a few texts of this worker's own slice take part too
+    for _ in 0..4 {
+        x = x.wrapping_mul(6364136223846793005).wrapping_add(1442695040888963407);
+        if !pool.is_empty() {
+            h.push(pool[(x >> 33) as usize % pool.len()].clone());
+        }
+    }
+    for k in (1..h.len()).rev() {
+        x = x.wrapping_mul(6364136223846793005).wrapping_add(1442695040888963407);
+        h.swap(k, (x >> 33) as usize % (k + 1));
+    }
+    h.push(last.to_string());
+    h
+}
+
 pub fn replay(case: &Value) -> Result<Verdict, String> {
     if case["kind"] == "fuzz-input" {
         return crate::fuzzrun::replay(case);
+    }
+    if case["kind"] == "history" {
+        let h: Vec<String> = case["inputs"].as_array().ok_or("no inputs")?.iter().filter_map(|v| v.as_str().map(|s| s.to_string())).collect();
+        return Ok(match run_history(&h) {
+            Ok(()) => Verdict::Pass { nt: true, class: "history" },
+            Err(e) => Verdict::Fail(e),
+        });
     }
     Ok(judge(case["input"].as_str().ok_or("no input")?))
 }
@@ -70,6 +167,10 @@ pub fn worker(shard: usize, nshards: usize, seed: u64, tier: Tier, out: &str, tr
     let texts = corpus::texts(seed, tier, shard, nshards);
     let mut st = Stats::new();
     let mut nt: Vec<u8> = vec![];
+    // the calls made so far on this thread (newest last): a failure that needs earlier calls is
+    // reported as the shortest history found that reproduces it on a fresh thread
+    let mut recent: std::collections::VecDeque<String> = std::collections::VecDeque::new();
+    let mut explained = 0usize;
     for (i, t) in texts.iter().enumerate() {
         if let Some(o) = only {
             if i != o {
@@ -80,9 +181,36 @@ pub fn worker(shard: usize, nshards: usize, seed: u64, tier: Tier, out: &str, tr
             let _ = std::fs::write(tr, format!("{i}\n{}", t));
         }
         if i % 8 == 0 {
-            poison_parses(1);
+            // earlier calls on this very thread: each must be answered too, in whatever order
+            let h = history_for(seed, i, &texts, t);
+            let mut hv = Verdict::Pass { nt: false, class: "history of calls on one thread" };
+            let mut hcase = json!({"kind": "history", "inputs": []});
+            for p in h.iter() {
+                if !corpus::within_bounds(p) {
+                    continue;
+                }
+                let r = exercise(p);
+                remember(&mut recent, p);
+                if let Err(e) = r {
+                    let (c, m) = explain_failure(&recent, p, e, explained < 3);
+                    explained += 1;
+                    hcase = c;
+                    hv = Verdict::Fail(m);
+                    break;
+                }
+            }
+            let hk = stable_hash(&(i as u64, 0xC03u64));
+            st.record(&hv, hk, true, || hcase);
         }
-        let v = judge(t);
+        let mut v = judge(t);
+        remember(&mut recent, t);
+        let mut fcase = case_json(t);
+        if let Verdict::Fail(e) = &v {
+            let (c, m) = explain_failure(&recent, t, e.clone(), explained < 3);
+            explained += 1;
+            fcase = c;
+            v = Verdict::Fail(m);
+        }
         let h = stable_hash(t.as_str());
         if let Verdict::Pass { nt: true, .. } = v {
             nt.extend_from_slice(&h.to_le_bytes());
@@ -92,7 +220,7 @@ pub fn worker(shard: usize, nshards: usize, seed: u64, tier: Tier, out: &str, tr
             Verdict::Pass { class, .. } => Verdict::Pass { nt: false, class },
             o => o,
         };
-        st.record(&v2, h, true, || case_json(t));
+        st.record(&v2, h, true, || fcase);
         if i % 97 == 0 && st.samples.len() < 6 {
             st.samples.push(case_json(t));
         }
@@ -179,7 +307,7 @@ pub fn run(ctx: &Ctx) -> Report {
     }
     Report {
         stats: total,
-        rule: "inputs within the stated bounds (UTF-8, <= 4 KiB, <= 64 of '(' and '!'): (1) grammar-aware texts over the whole vocabulary in layout/argument-spelling variants; (2) every prefix and every single-character mutation (delete, duplicate, replace by each of 24 special characters) of a sample of those; (3) every argument string of length <= 3 over a 20-symbol alphabet after each argument-taking keyword; (4) numeric boundary strings and long octal runs; (5) the member/non-member texts of C05 and random format strings; nesting at the bound. Oracle, per input, in a child process, in the dev and in the release build: parse returns; on Err, Display and Debug of the error return; on Ok, compile returns; on Ok, scheme(\"/\"), scheme(hostile path) and io_map() return. A panic, abort or fatal signal is a failure; a watchdog expiry is inconclusive (exit 2). Non-trivial: parsing got past the first token (Ok, or an error that names a keyword). Distinct: by input text.".into(),
+        rule: "inputs within the stated bounds (UTF-8, <= 4 KiB, <= 64 of '(' and '!'): (1) grammar-aware texts over the whole vocabulary in layout/argument-spelling variants; (2) every prefix and every single-character mutation (delete, duplicate, replace by each of 24 special characters) of a sample of those; (3) every argument string of length <= 3 over a 20-symbol alphabet after each argument-taking keyword; (4) numeric boundary strings and long octal runs; (5) the member/non-member texts of C05 and random format strings; nesting at the bound; (6) before every eighth input, a history of calls on the worker's own thread: 18 fixed inputs that are rejected by the lexer, rejected by the grammar with parentheses open, or accepted with a warning, mixed with four texts of the slice in a seed-dependent order - each call of the history is judged like any other input, and a failure that needs earlier calls is reported as the shortest history that reproduces it on a fresh thread (replay kind \"history\"). Oracle, per input, in a child process, in the dev and in the release build: parse returns; on Err, Display and Debug of the error return; on Ok, compile returns; on Ok, scheme(\"/\"), scheme(hostile path) and io_map() return. A panic, abort or fatal signal is a failure; a watchdog expiry is inconclusive (exit 2). Non-trivial: parsing got past the first token (Ok, or an error that names a keyword). Distinct: by input text.".into(),
         assumptions: vec!["deeper nesting than 64 and inputs beyond 4 KiB are outside the property as stated".into()],
         exhaustive: false,
     }
